@@ -117,3 +117,40 @@ class Req:
 
     def get_cache_key(self):
         return uuid.uuid4()
+
+
+def user_schema_from_sdl(sdl_text: str):
+    """-> (user FlatSchema, reflection cache) for an SDL document, built by the server
+    compiler itself (START MIGRATION TO / POPULATE / COMMIT on an empty database);
+    cached per (tree hash, text)."""
+    import immutables
+    tb = load_std()
+    key = hashlib.sha256(sdl_text.encode()).hexdigest()[:16]
+    f = CACHE / tree_hash() / f'user-{key}.pickle'
+    if f.exists():
+        try:
+            with open(f, 'rb') as fh:
+                return pickle.load(fh)
+        except Exception:
+            pass
+    from edb.schema import schema as s_schema
+    from edb.server import compiler as edbcompiler
+    from edb.server.compiler import compiler as cmod
+    from edb import edgeql
+    compiler = tb.new_compiler()
+    ctx = edbcompiler.new_compiler_context(
+        compiler_state=compiler.state, user_schema=s_schema.EMPTY_SCHEMA,
+        modaliases={None: 'default'})
+    body = sdl_text.strip()
+    if body.endswith(';'):
+        body = body[:-1]
+    cmod.compile(ctx=ctx, source=edgeql.Source.from_string(
+        f'start migration to {{ {body} }}; populate migration; commit migration;'))
+    tx = ctx.state.current_tx()
+    res = (tx.get_user_schema(), tx.get_cached_reflection())
+    f.parent.mkdir(parents=True, exist_ok=True)
+    tmp = f.with_suffix(f'.{os.getpid()}')
+    with open(tmp, 'wb') as fh:
+        pickle.dump(res, fh)
+    os.replace(tmp, f)
+    return res
